@@ -15,7 +15,7 @@ from vf.dialect import T, arg, single
 ID = 'C08'
 LEVEL = 'exploration'
 ASSUMPTIONS = [
-    'the position of typedef\'d instantiations within their scope is not part of the property and is not compared',
+    'where the typedef\'d instantiations are placed within their scope is not compared; their order relative to each other (the order of the typedefs) is',
     'template bodies use only exact parameter occurrences (substitution depth is C02\'s subject)',
 ]
 
@@ -143,9 +143,39 @@ def gen_cases(seed, thorough):
                    D.typedef(T(nm, t=[pool[1], pool[1]]), 'GlobalPair')]
             if order:
                 tds.reverse()
-            # typedefs precede the namespaces of their templates (the other order is a separate, known finding)
-            yield 'typedef-%s/same-name-in-3-namespaces' % tk, surround(
-                tds + [D.ns('left', [tgt(nm)]), tgt(nm), D.ns('right', [D.ns('inner', [tgt(nm)])])])
+            decls = [D.ns('left', [tgt(nm)]), tgt(nm), D.ns('right', [D.ns('inner', [tgt(nm)])])]
+            yield 'typedef-%s/same-name-in-3-namespaces' % tk, surround(tds + decls)
+            yield 'typedef-%s/same-name-in-3-namespaces/typedefs-last' % tk, surround(decls + tds)
+            yield 'typedef-%s/same-name-in-3-namespaces/typedefs-between' % tk, surround(decls[:1] + tds + decls[1:])
+    # 3c. a namespace opened twice (depth 1 and 2): the template sits in the first or the second block, the
+    #     typedef in either block or in front of both
+    for tk in ('class', 'func', 'fwd'):
+        for path in (['outer'], ['outer', 'inner']):
+            for tblock in (0, 1):
+                for tdloc in ('first-block', 'second-block', 'global-before'):
+                    tpl = header([0], pool)
+                    nm = 'Tgt' if tk != 'func' else 'tgt'
+                    tgt = class_decl(tpl, nm) if tk == 'class' else (func_decl(tpl, nm) if tk == 'func' else D.fwd(nm))
+                    td = D.typedef(T('::'.join(path + [nm]), t=[pool[1]]), 'EasyName')
+                    blocks = [[D.cls('InFirst', [D.ctor('InFirst')])], [D.func(single(T('void')), 'inSecond', [])]]
+                    blocks[tblock].append(tgt)
+                    if tdloc == 'first-block':
+                        blocks[0].append(td)
+                    elif tdloc == 'second-block':
+                        blocks[1].append(td)
+                    mod = ([td] if tdloc == 'global-before' else []) + wrap_ns_path(blocks[0], path) + \
+                        [D.enum('Between', ['A'])] + wrap_ns_path(blocks[1], path)
+                    yield 'typedef-%s/reopened-namespace/template-in-block-%d/typedef-%s' % (tk, tblock + 1, tdloc), surround(mod)
+    # 3d. typedefs of a class template, a function template and a foreign template in one scope, in every order
+    for depth in (0, 1):
+        for perm in itertools.permutations(range(3)):
+            tds = [D.typedef(T('Mine', t=[pool[0]]), 'MineD'), D.typedef(T('make', t=[pool[1]]), 'makeP'),
+                   D.typedef(T('Ext', t=[pool[2]]), 'ExtBase')]
+            body = [D.fwd('Ext'), class_decl(header([0], pool), 'Mine'), func_decl(header([0], pool), 'make')]
+            if depth:
+                tds = [D.typedef(T('outer::' + t['t']['q'], t=t['t']['t']), t['n']) for t in tds]
+            items = body + [tds[i] for i in perm]
+            yield 'typedef-mixed-kinds/order-%s' % ''.join(map(str, perm)), surround(wrap_ns_path(items, ['outer'][:depth]))
     # 4. template with neither list nor typedef yields nothing; two templates side by side
     yield 'nothing', surround([class_decl(header([0], pool)), func_decl(header([0, 0], pool))])
     yield 'two', surround([class_decl(header([2], pool), 'Foo'), class_decl(header([1, 2], pool, 2), 'Bar'),
